@@ -7,6 +7,7 @@ from vivarium.library.topology import get_in
 from vivarium.library.units import units
 
 from vsym.core import AND, OR, NOT, EQ, is_sym
+from vsym import stubs   # registers the serializers for the proxies
 
 PROPERTY = 'C18'
 CLAIMS = {
@@ -20,12 +21,16 @@ CLAIMS = {
 }
 GOALS = {'quick': ['falsy value possible', 'partial query',
                    'history inserted out of time order',
-                   'queried variable missing at one time'],
+                   'queried variable missing at one time',
+                   'two rows emitted for one time'],
          'thorough': ['falsy value possible', 'partial query',
                       'history inserted out of time order',
-                      'queried variable missing at one time']}
+                      'queried variable missing at one time',
+                      'two rows emitted for one time']}
 STUBS = ['RAMEmitter.saved_data filled directly with raw data (the accessors '
-         'under test read it; no orjson boundary crossed)']
+         'under test read it; no orjson boundary crossed); the emit-same-time '
+         'job goes through the real RAMEmitter.emit (values concretised by '
+         'forking at the serializer)']
 ASSUMPTIONS = ['values: symbolic ints in [-2,2], symbolic booleans, and a choice '
                'over "", [], "z", [1]; quantities (pint) are outside the claim']
 BOUNDS = {'quick': '<=3 times, 3 tree shapes (nesting <=3), 3-4 variables, all '
@@ -51,6 +56,7 @@ def jobs(tier):
         out.append(dict(name='shape%s-missing' % shape, shape=shape,
                         nt=3 if tier == 'quick' else 4, part='missing',
                         budget_s=100 if tier == 'quick' else 600))
+    out.append(dict(name='emit-same-time', part='emit', budget_s=100))
     return out
 
 
@@ -61,6 +67,8 @@ def assoc(d, path, v):
 
 
 def body(ctx, cfg):
+    if cfg.get('part') == 'emit':
+        return emit_merge(ctx, cfg)
     paths = SHAPES[cfg['shape']]
     # insertion order of the raw data: ascending (what the engine produces),
     # descending or rotated (merged / late data); alignment is claimed by
@@ -169,6 +177,61 @@ def body(ctx, cfg):
             cl.append(leaves <= set(sel))
         ctx.claim('C18.query', AND(cl), sig='query',
                   info=lambda: dict(data=data, query=query, got=got))
+
+
+def emit_merge(ctx, cfg):
+    """The real RAMEmitter.emit (serialize_value / orjson; symbolic values are
+    concretised by forking): two rows emitted for one time - as float and as
+    int - that share a top-level store and carry different variables are both
+    kept, in the raw data and in every view."""
+    em = RAMEmitter({})
+    v = [ctx.int('v', -1, 1) for _ in range(5)]
+    share = ctx.flag('share_top')
+    t_dup = 1 + ctx.choice('tdup', 2)
+    rows = []
+    for t in (0, 1, 2):
+        if t == t_dup:
+            rows.append({'time': float(t), 'a': {'x': v[t]}, 'b': {'z': v[3]}})
+            second = {'time': t, ('a' if share else 'c'): {'y': v[4]}}
+            rows.append(second)
+        else:
+            rows.append({'time': t, 'a': {'x': v[t]}, 'b': {'z': v[3]}})
+    for r in rows:
+        em.emit({'table': 'history', 'data': dict(r)})
+    ctx.goal('two rows emitted for one time')
+    got = em.get_data()
+    exp = {}
+    for r in rows:
+        d = exp.setdefault(r['time'], {})
+        for k, sub in r.items():
+            if k != 'time':
+                d.setdefault(k, {}).update(sub)
+    cl = [sorted(got.keys()) == sorted(exp.keys())]
+    for t, d in exp.items():
+        g = got.get(t, {})
+        cl.append(set(g) == set(d))
+        for k, sub in d.items():
+            cl.append(isinstance(g.get(k), dict) and set(g[k]) == set(sub))
+            if isinstance(g.get(k), dict):
+                cl += [EQ(g[k][kk], vv) for kk, vv in sub.items()
+                       if kk in g[k]]
+    ctx.claim('C18.roundtrip', AND(cl), sig='emit-same-time-rows-merged',
+              info=lambda: dict(rows=rows, stored=got))
+    q = em.get_data([('a', 'x')])
+    cl = [sorted(q.keys()) == sorted(exp.keys())]
+    for t in exp:
+        cl.append(EQ(get_in(q.get(t, {}), ('a', 'x'), 'missing'),
+                     exp[t]['a']['x']))
+    ctx.claim('C18.query', AND(cl), sig='query-after-same-time-rows',
+              info=lambda: dict(rows=rows, got=q))
+    ts = em.get_timeseries()
+    ctx.claim('C18.aligned', AND(
+        [len(ts.get('time', [])) == 3,
+         len(get_in(ts, ('a', 'x'), [])) == 3]
+        + [EQ(x, exp[t]['a']['x']) for x, t in zip(
+            get_in(ts, ('a', 'x'), []), ts.get('time', []))]),
+        sig='aligned-after-same-time-rows',
+        info=lambda: dict(rows=rows, timeseries=ts))
 
 
 def query_missing(ctx, times, paths, data, raw, same):
